@@ -391,3 +391,61 @@ func TestC07EveryKindLast(t *testing.T) {
 	st.Exhaustive(fmt.Sprintf("every one of the %d catalog kinds as the last column of a block, every cut", kinds))
 	st.Sample(map[string]any{"kind": "every-kind-last", "kinds": kinds, "cuts": n})
 }
+
+// TestC07EveryLongList (deterministic, run once with the every-kind pass): Query messages whose
+// settings or parameter lists hold 255 .. 1500 entries - the lists have no length on the wire
+// and end with an empty key - cut at every position of their last 64 bytes, at every entry
+// boundary of the last 40 entries, and at every 89th byte before that.
+func TestC07EveryLongList(t *testing.T) {
+	st := stats.G()
+	var n int64
+	for _, size := range []int{255, 999, 1000, 1001, 1500} {
+		for _, which := range []string{"settings", "parameters"} {
+			for _, rev := range []int{54460, 54459} {
+				q := ref.Query{ID: "q", Stage: 2, Body: "SELECT 1", Info: ref.ClientInfo{QueryKind: 1, Revision: int64(rev), Interface: 1}}
+				for i := 0; i < size; i++ {
+					if which == "settings" {
+						q.Settings = append(q.Settings, ref.Setting{Key: fmt.Sprintf("s%d", i), Value: "1", Flags: uint64(i % 2)})
+					} else {
+						q.Params = append(q.Params, ref.Setting{Key: fmt.Sprintf("p%d", i), Value: "'v'", Flags: 2})
+					}
+				}
+				e := &ref.Enc{NoMap: true}
+				ref.EncodeQuery(e, q, rev)
+				data := e.B[1:] // without the packet code
+				var full proto.Query
+				if err := decodeExact(data, false, func(r *proto.Reader) error { return full.DecodeAware(r, rev) }); err != nil {
+					t.Fatalf("Query with %d %s at revision %d, uncut: %v", size, which, rev, err)
+				}
+				if (which == "settings" && len(full.Settings) != size) || (which == "parameters" && len(full.Parameters) != size) {
+					t.Fatalf("Query with %d %s at %d decodes to %d settings and %d parameters", size, which, rev, len(full.Settings), len(full.Parameters))
+				}
+				cuts := map[int]bool{}
+				for k := max(0, len(data)-64); k < len(data); k++ {
+					cuts[k] = true
+				}
+				for k := 0; k < len(data); k += 89 {
+					cuts[k] = true
+				}
+				// entry boundaries near the end of the list: positions just behind "…<digits>" keys
+				for k := max(0, len(data)-700); k < len(data); k++ {
+					if data[k] == 's' || data[k] == 'p' {
+						cuts[k-1], cuts[k] = true, true
+					}
+				}
+				delete(cuts, -1)
+				for k := range cuts {
+					n++
+					var m proto.Query
+					err := safely(func() error { return m.DecodeAware(readerOf(data[:k]), rev) })
+					if err == nil || isPanic(err) {
+						p := st.Violate("long-list-cut", fmt.Sprintf("Query with %d %s at revision %d: the first %d of %d bytes decode with %v", size, which, rev, k, len(data), err), data[:k])
+						t.Fatalf("Query with %d %s at revision %d: decoding the first %d of %d bytes returned %v (replay %s)", size, which, rev, k, len(data), err, p)
+					}
+				}
+			}
+		}
+	}
+	st.Enumerated(n, n)
+	st.Sample(map[string]any{"kind": "long-list-cuts", "lists": "255, 999, 1000, 1001, 1500 settings or parameters", "cuts": n})
+}
